@@ -99,7 +99,7 @@ def tla_value(v):
             return v[1:]
         return '"%s"' % v
     if isinstance(v, (set, frozenset)):
-        return "{" + ", ".join(tla_value(x) for x in sorted(v, key=str)) + "}"
+        return "{" + ", ".join(tla_value(x) for x in sorted(v, key=lambda z: (isinstance(z, str), z))) + "}"
     if isinstance(v, (list, tuple)):
         return "<<" + ", ".join(tla_value(x) for x in v) + ">>"
     raise ValueError("cannot render %r" % (v,))
